@@ -123,6 +123,77 @@ theorem le_is_not_gt (a b : V) (h : lessThan b a ≠ none) : binop "<=" a b = (b
   | none => exact absurd hl h
   | some r => simp
 
+/-! ### 32-bit operators: range, the `|0` / `~~` / `>>>0` spellings, commutativity, shift counts -/
+
+theorem toUint32_lt (n : Num) : toUint32 n < 4294967296 := by
+  cases n <;> simp [toUint32, two32]
+  rename_i z
+  have h := Int.emod_lt_of_pos z (show (0 : Int) < 4294967296 by decide)
+  have h0 := Int.emod_nonneg z (show (4294967296 : Int) ≠ 0 by decide)
+  omega
+
+theorem signed32_range (u : Nat) (h : u < 4294967296) : -2147483648 ≤ signed32 u ∧ signed32 u < 2147483648 := by
+  by_cases hu : u < 2147483648 <;> simp [signed32, two31, two32, hu] <;> omega
+
+/-- ToInt32 always lands in [−2^31, 2^31) -/
+theorem toInt32_range (n : Num) : -2147483648 ≤ toInt32 n ∧ toInt32 n < 2147483648 :=
+  signed32_range _ (toUint32_lt n)
+
+/-- the signed and the unsigned reading of 32 bits determine each other -/
+theorem toUint32_signed32 (u : Nat) (h : u < 4294967296) : toUint32 (.int (signed32 u)) = u := by
+  by_cases hu : u < 2147483648 <;> simp [toUint32, signed32, two31, two32, hu] <;> omega
+
+theorem toInt32_of_range (z : Int) (h : -2147483648 ≤ z ∧ z < 2147483648) : toInt32 (.int z) = z := by
+  simp only [toInt32, toUint32, signed32, two31, two32]
+  by_cases hz : 0 ≤ z
+  · have e : z % 4294967296 = z := Int.emod_eq_of_lt hz (by omega)
+    simp [e]; omega
+  · have e : z % 4294967296 = z + 4294967296 := by
+      have := Int.emod_emod_of_dvd z (show (4294967296 : Int) ∣ 4294967296 from Int.dvd_refl _)
+      have h1 : (z + 4294967296) % 4294967296 = z % 4294967296 := by simp
+      rw [← h1]; exact Int.emod_eq_of_lt (by omega) (by omega)
+    simp [e]; omega
+
+/-- ToUint32 of a ToInt32 result is the same 32 bits -/
+theorem toUint32_toInt32 (n : Num) : toUint32 (.int (toInt32 n)) = toUint32 n :=
+  toUint32_signed32 _ (toUint32_lt n)
+
+/-- `v | 0` is ToInt32(v); `~~v` is the same number -/
+theorem bitor_zero (v : V) : binop "|" v (.num (.int 0)) = some (.num (.int (toInt32 (toNumber v)))) := by
+  have h0 : toNumber (.num (.int 0)) = .int 0 := rfl
+  simp [binop, bitOr, h0, toUint32, toInt32]
+theorem double_not (v : V) : (unop "~" v).bind (unop "~") = binop "|" v (.num (.int 0)) := by
+  rw [bitor_zero]
+  generalize hn : toNumber v = n
+  have h := toInt32_range n
+  have hnum : ∀ x, toNumber (.num x) = x := fun _ => rfl
+  simp only [unop, Option.bind, hn, hnum, bitNot]
+  rw [toInt32_of_range (-(toInt32 n) - 1) (by omega)]
+  congr 3; omega
+
+theorem toUint32_natCast (u : Nat) (h : u < 4294967296) : toUint32 (.int (u : Int)) = u := by
+  have e : (u : Int) % 4294967296 = (u : Int) := Int.emod_eq_of_lt (by omega) (by omega)
+  simp [toUint32, two32, e]
+
+/-- `v >>> 0` is ToUint32(v), and applying it twice changes nothing -/
+theorem ushr_zero_idem (v : V) :
+    (binop ">>>" v (.num (.int 0))).bind (fun r => binop ">>>" r (.num (.int 0))) = binop ">>>" v (.num (.int 0)) := by
+  generalize hn : toNumber v = n
+  have hnum : ∀ x, toNumber (.num x) = x := fun _ => rfl
+  have hc : shiftCount (.int 0) = 0 := by decide
+  simp only [binop, Option.bind, hn, hnum, shr, hc, Nat.shiftRight_zero]
+  rw [toUint32_natCast _ (toUint32_lt n)]
+
+/-- the bitwise operators are commutative -/
+theorem bitwise_comm (a b : V) :
+    binop "&" a b = binop "&" b a ∧ binop "|" a b = binop "|" b a ∧ binop "^" a b = binop "^" b a := by
+  simp [binop, bitAnd, bitOr, bitXor, Nat.and_comm, Nat.or_comm, Nat.xor_comm]
+
+/-- only the low five bits of the shift count matter: shifting by k and by k + 32 agree -/
+theorem shift_count_mod32 (k : Int) : shiftCount (.int (k + 32)) = shiftCount (.int k) := by
+  simp only [shiftCount, toUint32, two32]
+  omega
+
 end TsrunVerif.Ops
 
 namespace TsrunVerif.Ctl
